@@ -83,6 +83,70 @@ Section Run.
     - intros q s. apply SL_frame; reflexivity.
   Qed.
 
+  (* ---- every configuration: with or without the request limiter ---- *)
+  Lemma SL_base_start_send m (s : st) e s' : base_start_send tp m s = (e, s') -> SL s -> SL s'.
+  Proof.
+    unfold base_start_send. intros H K. pose proof (SL_remove_request (resp_id m) _ K) as K2.
+    destruct (remove_request (resp_id m) s) as [was sx]. cbn [snd] in K2. destruct was.
+    - destruct (do_send tp m sx) as [rr sy] eqn:ES. injection H as _ <-. eapply SL_do_send; eassumption.
+    - injection H as _ <-. exact K2.
+  Qed.
+
+  Lemma SL_base_poll_next f (s : st) r s' : base_poll_next tp f s = (r, s') -> SL s -> SL s'.
+  Proof.
+    intros H K.
+    pose proof (ChainSrv.base_poll_next_ind tp SL (fun _ => SL)) as IND.
+    assert (G : match r with PReady q => SL s' | _ => SL s' end); [|destruct r; exact G].
+    eapply IND; try eassumption; clear.
+    - intros s id r _ K. apply SL_remove_request. revert K. apply SL_frame; reflexivity.
+    - intros s r s' H [I L]. split; [eapply SI_poll_expired; eassumption|].
+      apply poll_expired_shape in H. destruct H as (_ & _ & _ & E & _). rewrite E. exact L.
+    - intros s r s' H _. eapply SL_do_next, H.
+    - intros s. apply SL_frame; reflexivity.
+    - intros s id dl tr body s1 h s2 H K S. pose proof (SL_do_next _ _ _ H K) as [I L].
+      split; [eapply SI_start_request; [exact I|lia|eassumption]|].
+      apply start_request_shape in S. destruct S as (_ & _ & _ & _ & _ & _ & _ & _ & E & _). rewrite E. exact L.
+    - intros s id dl tr body s1 H K _. eapply SL_do_next; eassumption.
+    - intros s id tr s1 H K. pose proof (SL_do_next _ _ _ H K) as [I L].
+      split; [apply SI_cancel_request, I|]. unfold cancel_request. destruct (find_entry id s1); exact L.
+  Qed.
+
+  Lemma SL_maxreq_poll_next limit f : forall (s : st) r s', maxreq_poll_next tp f limit s = (r, s') -> SL s -> SL s'.
+  Proof.
+    induction f as [|f IH]; intros s r s' H K; cbn [maxreq_poll_next] in H; [injection H as _ <-; exact K|].
+    destruct (limit <=? length (s_inflight s))%nat; [|eapply SL_base_poll_next; eassumption].
+    destruct (do_ready tp s) as [rd s1] eqn:E1. pose proof (SL_do_ready _ _ _ E1 K) as K1.
+    destruct rd; try (injection H as _ <-; exact K1).
+    destruct (base_poll_next tp (S f) s1) as [x s2] eqn:E2. pose proof (SL_base_poll_next _ _ _ _ E2 K1) as K2.
+    destruct x as [q| |a| |]; try (injection H as _ <-; exact K2).
+    destruct (base_start_send tp (mkresp (q_id q) BThrottle) s2) as [e s3] eqn:E3.
+    pose proof (SL_base_start_send _ _ _ _ E3 K2) as K3.
+    destruct e; [injection H as _ <-; exact K3|eapply IH; eassumption].
+  Qed.
+
+  Lemma SL_pump_write rc (s : st) w s' : pump_write tp rc s = (w, s') -> SL s -> SL s'.
+  Proof.
+    intros H K. eapply (ChainSrv.pump_write_ind tp SL); [| | |exact H|exact K].
+    - intros s0 r s0'. apply SL_do_ready.
+    - intros s0 r s0'. apply SL_do_flush.
+    - intros s0 m r e s0' _ HS K0. eapply SL_base_start_send; [exact HS|].
+      apply SL_add_permit. revert K0. apply SL_frame; reflexivity.
+  Qed.
+
+  Lemma SL_requests_poll_next_cfg c f : forall (s : st) r s',
+    requests_poll_next tp c f s = (r, s') -> SL s -> SL s'.
+  Proof.
+    induction f as [|f IH]; intros s r s' H K; cbn [requests_poll_next] in H; [injection H as _ <-; exact K|].
+    destruct (pump_read tp c (S f) s) as [rd s1] eqn:ER.
+    assert (K1 : SL s1).
+    { unfold pump_read in ER. destruct (cfg_limit c); [eapply SL_maxreq_poll_next|eapply SL_base_poll_next]; eassumption. }
+    destruct rd as [q| |a| |]; try (injection H as _ <-; exact K1).
+    all: match type of H with context [pump_write tp ?b ?sx] =>
+           destruct (pump_write tp b sx) as [wr s2] eqn:EW; pose proof (SL_pump_write _ _ _ _ EW K1) as K2 end.
+    all: destruct wr as [u| |a| |]; try (injection H as _ <-; exact K2); try (eapply IH; eassumption).
+    injection H as _ <-. revert K2. apply SL_frame; reflexivity.
+  Qed.
+
   Ltac frm := apply SL_frame; sproj; reflexivity.
 
   Lemma SL_execute_poll k hs (s : st) s' l : execute_poll k hs s = (s', l) -> SL s -> SL s'.
@@ -114,8 +178,8 @@ Section Run2.
   Definition adv1 (o : op C) : N := match o with OAdvance dt => dt | _ => 0 end.
   Definition advs (ops : list (op C)) : N := fold_right (fun o a => adv1 o + a) 0 ops.
 
-  Lemma SL_step n (s : st) (o : op C) s' l :
-    step tp ctl tfuel (mkcfg None 100) s o = (s', l) -> SL n s -> n + adv1 o <= LIMIT ->
+  Lemma SL_step_cfg c n (s : st) (o : op C) s' l :
+    step tp ctl tfuel c s o = (s', l) -> SL n s -> n + adv1 o <= LIMIT ->
     SL (n + adv1 o) s' /\ ~ In OOracle l.
   Proof.
     intros H K LM. unfold step in H.
@@ -126,8 +190,8 @@ Section Run2.
     destruct o as [|x|k hs|k|k| |dt]; cbn [adv1] in *; rewrite ?N.add_0_r in *.
     - unfold poll_requests in H. destruct (s_dropped s).
       + eapply G; [exact K|exact H|intros ? []].
-      + destruct (requests_poll_next tp (mkcfg None 100) (poll_fuel tfuel s) (set_log s [])) as [r s1] eqn:ER.
-        assert (K1 : SL n s1) by (eapply SL_requests_poll_next; [exact ER|revert K; frm]).
+      + destruct (requests_poll_next tp c (poll_fuel tfuel s) (set_log s [])) as [r s1] eqn:ER.
+        assert (K1 : SL n s1) by (eapply SL_requests_poll_next_cfg; [exact ER|revert K; frm]).
         destruct r; (eapply G; [|exact H|intros y [<-|[<-|[]]]; discriminate]); try exact K1. revert K1. frm.
     - eapply G; [|exact H|intros ? []]. revert K. frm.
     - destruct (execute_poll k hs s) as [s1 l1] eqn:EE. eapply G; [eapply SL_execute_poll; eassumption|exact H|].
@@ -158,20 +222,20 @@ Section Run2.
   Qed.
 
   (* along every run: as long as the clock stays at or below LIMIT, the oracle never disagrees *)
-  Lemma SL_run ops : forall n (s : st),
+  Lemma SL_run_cfg c ops : forall n (s : st),
     SL n s -> n + advs ops <= LIMIT ->
-    forall l, In l (fst (run_from tp ctl tfuel (mkcfg None 100) s ops)) -> ~ In OOracle l.
+    forall l, In l (fst (run_from tp ctl tfuel c s ops)) -> ~ In OOracle l.
   Proof.
     induction ops as [|o r IH]; intros n s K LM l; cbn [run_from advs fold_right] in *; [intros []|].
     fold (advs r) in LM.
-    destruct (step tp ctl tfuel (mkcfg None 100) s o) as [s1 l1] eqn:ES.
-    destruct (SL_step _ _ _ _ _ ES K ltac:(lia)) as [K1 NO].
+    destruct (step tp ctl tfuel c s o) as [s1 l1] eqn:ES.
+    destruct (SL_step_cfg _ _ _ _ _ _ ES K ltac:(lia)) as [K1 NO].
     specialize (IH (n + adv1 o) s1 K1 ltac:(lia)).
-    destruct (run_from tp ctl tfuel (mkcfg None 100) s1 r) as [ls s2]. cbn [fst] in *.
+    destruct (run_from tp ctl tfuel c s1 r) as [ls s2]. cbn [fst] in *.
     intros [<-|H]; [exact NO|apply IH, H].
   Qed.
 
-  Lemma SL_init t0 : SL 0 (init (mkcfg None 100) t0 : st).
+  Lemma SL_init_cfg c t0 : SL 0 (init c t0 : st).
   Proof.
     split; [|split; [reflexivity|unfold LIMIT; lia]]. constructor; cbn.
     - apply DI_init.
@@ -185,9 +249,19 @@ Section Run2.
 
   (* the pinned form: every run of the server model (no limiter, any transport, any ops) whose
      clock - the sum of its OAdvance steps - stays at or below LIMIT prints no OOracle *)
+  Theorem server_oracle_agrees_cfg c t0 ops :
+    advs ops <= LIMIT ->
+    forall l, In l (fst (run tp ctl tfuel c t0 ops)) -> ~ In OOracle l.
+  Proof. intros LM. unfold run. eapply SL_run_cfg; [apply SL_init_cfg|lia]. Qed.
+
+  (* the instances without a limiter, as first stated *)
+  Definition SL_step n (s : st) (o : op C) s' l := SL_step_cfg (mkcfg None 100) n s o s' l.
+  Definition SL_run ops n (s : st) := SL_run_cfg (mkcfg None 100) ops n s.
+  Definition SL_init t0 := SL_init_cfg (mkcfg None 100) t0.
   Theorem server_oracle_agrees t0 ops :
     advs ops <= LIMIT ->
     forall l, In l (fst (run tp ctl tfuel (mkcfg None 100) t0 ops)) -> ~ In OOracle l.
-  Proof. intros LM. unfold run. eapply SL_run; [apply SL_init|lia]. Qed.
+  Proof. apply server_oracle_agrees_cfg. Qed.
 End Run2.
 Print Assumptions server_oracle_agrees.
+Print Assumptions server_oracle_agrees_cfg.
